@@ -4,7 +4,9 @@ import datetime
 import simcheck
 
 META = {
-    "level_text": ("Theorems (Lean 4) over the order / trade / runner-context state machines of the world model: RunnerContext.place adds a trade "
+    "level_text": ("Cool-downs: an unforced placement that validate_order lets through is outside both cool-down windows - no exception at an elapsed time of "
+                   "exactly zero since fix F25 - and a placement refused for a cool-down is inside it (cool_downs_respected, cool_down_refusal_is_inside). "
+                   "Theorems (Lean 4) over the order / trade / runner-context state machines of the world model: RunnerContext.place adds a trade "
                    "to trades and live_trades at most once and never removes; reset removes exactly that trade from live_trades; a trade's "
                    "status log gains COMPLETE only through complete_trade, which is reached only when the trade is LIVE, not flagged "
                    "pending_orders and all its orders are complete, and it then frees exactly its slot; an order status update to a "
